@@ -226,12 +226,31 @@ def kani_playback(ov, harness_full, hfile, features=None, tname=None, timeout=90
 
 
 def harness_docs(hfile, kind='kani'):
-    """{harness fn name: doc comment} read from the harness source (for evidence samples)."""
-    txt = open(os.path.join(VERIF, 'harness', kind, hfile)).read()
+    """{harness fn name: doc comment} for every fn carrying #[kani::proof] in the harness source"""
     docs = {}
-    for m in re.finditer(r'((?:[ \t]*///[^\n]*\n)*)(?:[ \t]*#\[[^\n]*\]\n)*?[ \t]*#\[kani::proof\]\n(?:[ \t]*#\[[^\n]*\]\n)*[ \t]*(?:pub )?fn (\w+)', txt):
-        doc = ' '.join(l.strip()[3:].strip() for l in m.group(1).strip().split('\n') if l.strip())
-        docs[m.group(2)] = doc
+    doc = []
+    proof = False
+    for ln in open(os.path.join(VERIF, 'harness', kind, hfile)).read().split('\n'):
+        t = ln.strip()
+        if t.startswith('///'):
+            doc.append(t[3:].strip())
+            continue
+        if t.startswith('#['):
+            if 'kani::proof' in t:
+                proof = True
+            m = re.search(r'\bfn (\w+)', t)
+            if not m:
+                continue
+        m = re.match(r'^(?:#\[.*\]\s*)*(?:pub(?:\([^)]*\))?\s+)?fn (\w+)', t)
+        if m:
+            if proof:
+                docs[m.group(1)] = ' '.join(doc)
+            doc = []
+            proof = False
+            continue
+        if t == '' or not t.startswith('//'):
+            if not t.startswith('#['):
+                doc = [] if t == '' else doc
     return docs
 
 
